@@ -358,7 +358,12 @@ impl Sim {
                 self.hung = true;
                 self.daemons[i].alive = false;
             }
+            Parked::InExitWindow => {
+                self.daemons[i].wake = None;
+                self.daemons[i].pending_cmds = 0;
+            }
         }
+        let win = matches!(parked, Parked::InExitWindow);
         // replies of earlier calls
         let mut replies = Vec::new();
         let mut still = Vec::new();
@@ -438,7 +443,7 @@ impl Sim {
         }
         let line = json!({"e": "iter", "d": i, "startup": startup, "sent": sent, "events": events, "replies": replies,
             "wake": wake, "pend": self.daemons[i].pending_cmds, "alive": alive, "panicked": panicked,
-            "hung": matches!(parked, Parked::Timeout)});
+            "hung": matches!(parked, Parked::Timeout), "win": win, "closed": self.closed_chans(i)});
         self.log(line);
         if !alive || self.hung {
             self.log(json!({"e": "dead", "d": i, "panicked": panicked, "hung": self.hung}));
@@ -572,6 +577,67 @@ impl Sim {
 
     pub fn next_wake(&self) -> Option<u64> {
         self.daemons.iter().filter(|d| d.alive).filter_map(|d| d.wake).min().map(|w| w.saturating_sub(T0))
+    }
+
+
+    /// Event channels whose sender side is gone.
+    pub fn closed_chans(&self, i: usize) -> Vec<usize> {
+        self.daemons[i]
+            .chans
+            .iter()
+            .filter(|c| match &c.rx {
+                ChanRx::Browse(rx) => rx.is_disconnected(),
+                ChanRx::Host(rx) => rx.is_disconnected(),
+                ChanRx::Monitor(rx) => rx.is_disconnected(),
+            })
+            .map(|c| c.id)
+            .collect()
+    }
+
+    /// Asks the daemon to stop in its exit window (after Exit was processed
+    /// and the queue drained, before the receiver is dropped).
+    pub fn hold_exit(&mut self, i: usize, on: bool) {
+        let d = self.daemons[i].d;
+        self.world.hold_exit(d, on);
+    }
+
+    /// Lets a daemon held in its exit window run to the end of its thread.
+    pub fn release_exit(&mut self, i: usize) {
+        let d = self.daemons[i].d;
+        self.world.hold_exit(d, false);
+        self.finish_park(i, false);
+    }
+
+    /// State of every reply receiver that has not yielded anything yet, and of
+    /// every event channel: what a client blocked in recv() would see now.
+    pub fn final_state(&mut self, i: usize) -> Value {
+        let mut pend = Vec::new();
+        for (cid, p) in &self.daemons[i].pending {
+            let st = match p {
+                Pending::Unreg(rx) => match rx.try_recv() { Ok(_) => "value", Err(flume::TryRecvError::Disconnected) => "closed", Err(flume::TryRecvError::Empty) => "empty" },
+                Pending::Status(rx) | Pending::Shutdown(rx) => match rx.try_recv() {
+                    Ok(mdns_sd::DaemonStatus::Shutdown) => "Shutdown",
+                    Ok(mdns_sd::DaemonStatus::Running) => "Running",
+                    Ok(_) => "value",
+                    Err(flume::TryRecvError::Disconnected) => "closed",
+                    Err(flume::TryRecvError::Empty) => "empty",
+                },
+                Pending::Metrics(rx) => match rx.try_recv() { Ok(_) => "value", Err(flume::TryRecvError::Disconnected) => "closed", Err(flume::TryRecvError::Empty) => "empty" },
+            };
+            pend.push(json!({"call": cid, "st": st}));
+        }
+        self.daemons[i].drain();
+        let late = std::mem::take(&mut self.daemons[i].evbuf);
+        let mut chans = Vec::new();
+        for c in &self.daemons[i].chans {
+            let closed = match &c.rx {
+                ChanRx::Browse(rx) => rx.is_disconnected(),
+                ChanRx::Host(rx) => rx.is_disconnected(),
+                ChanRx::Monitor(rx) => rx.is_disconnected(),
+            };
+            chans.push(json!({"ch": c.id, "closed": closed}));
+        }
+        json!({"pending": pend, "late_events": late, "chans": chans})
     }
 
     // ---------------------------------------------------------------- calls
